@@ -14,6 +14,7 @@ import PPProofs.Props.C20Links
 #print axioms PP.Diagram.named_cycle_ok
 #print axioms PP.Diagram.links_resolve_partial
 #print axioms PP.Diagram.root_first_partial
+#print axioms PP.Diagram.root_first_unnamed_partial
 #print axioms PP.Diagram.no_empty_placeholder_partial
 #print axioms PP.Diagram.no_empty_placeholder_output_partial
 #print axioms PP.Diagram.no_empty_placeholder_tree_partial
